@@ -1,9 +1,9 @@
 SPECIFICATION Spec
 CONSTANTS
-  Nodes = {"n1"}
+  Nodes = {"n1", "n2"}
   ScanFirst = "n1"
-  Focus = "on"
-  MaxOps = 6
+  Focus = "off"
+  MaxOps = 4
 INVARIANT DownWhenSettled
 CONSTRAINT Emit
 CHECK_DEADLOCK FALSE
